@@ -3,6 +3,17 @@
 import json, glob, os, re
 HERE = os.path.dirname(os.path.dirname(os.path.abspath(__file__)))
 STRENGTHENED = {
+ "C01-w8m1": "file shape 'escapes' and C07's escape alphabet gained a value of two words; C07 now also parses every line with the dialect handed over and demands the inferred parse (C08 reported it as built)",
+ "C01-w8m3": "reported by C13 as built (file reader's window one line short); C09 reports it too",
+ "C03-w8m2": "reported by C12 and C01 as built (a feature ending exactly at 2**29)",
+ "C06-w8m2": "C06's leaf now names the root too (related at two levels) and 'each feature once' is judged before the helper features are filtered out (C10 reported it as built)",
+ "C09-w8m3": "C09 gained part 'corners': single attribute columns at the corners of the inference rules (a key repeated after an empty first occurrence; '=' inside a quoted GTF value; quoted values under key=value)",
+ "C10-w8m1": "reported by C05, which gained sequences in which X_1 and X_2 are both taken before the later arrivals",
+ "C14-w8m3": "reported by C05 as built ('warning' stops the import at the first repeated id)",
+ "C15-w8m2": "C15 asks create_splice_sites(numeric_sort=True) and checks the sites' attributes",
+ "C18-w8m1": "C18 gained nested blocks of two types: the block that starts last stops early, so ValueError is due",
+ "C20-w8m1": "C20 gained part 'hashseeds': the same merging import in fresh interpreters under six string-hash seeds must give one database (attribute values compared as sets)",
+ "C20-w8m2": "C20 gained the job 'transcript inference off only'; an ordinary solitary import that raises is reported as a violation instead of stopping the run",
  "C01-w7m2": "reported by C07 as built; C01's 'escapes' shape gained values whose only character to escape is a control character",
  "C02-w7m1": "reported by C10 as built (4-deep hierarchy, then any update)",
  "C04-w7m1": "C04's callable id_spec now returns an 'autoincrement:' base that itself holds a colon",
@@ -224,12 +235,18 @@ The sixth wave
 construction, text edge cases, the iterator protocol, the less travelled of two code paths for one behaviour,
 and numeric edges. The seventh wave (`*-w7m*`) repeated the very first prompt (two changes per property, no hints,
 no list of earlier proposals) as a measurement of the checks as they stood after six waves: of its 40 changes 35 were
-reported straight away (33 by the property's own check), 4 were not reported and 1 only on some runs (see C12-w7m1). %d of the %d changes were not reported by their own property's check as it stood when they
+reported straight away (33 by the property's own check), 4 were not reported and 1 only on some runs (see C12-w7m1). The eighth wave (`*-w8m*`) was told every earlier proposal and asked to strike out the code sites those touch and
+to make three one-token / one-line changes at sites nobody had touched. %d of the %d changes were not reported by their own property's check as it stood when they
 were first tried (%d of those were reported by another property's check straight away); all are now. Four
 proposals were dropped, not kept as seeded changes: four (C02, C04, C10 in the fifth wave, C10 in the sixth)
 only alter what a FAILED update leaves in the main database file, which the statements leave open (C10 only
 demands the backup file; the checks deliberately do not judge the main file there), so reporting them would
-be demanding more than the properties state. One sixth-wave change (merge criterion on sequence names holding
+be demanding more than the properties state. Six eighth-wave proposals were dropped as outside the statements: `level=0` on children()/parents() (C02 speaks of
+levels 1, 2 and their union), a region starting at 0 (C06 quantifies over 1 <= start), lone surrogates that JSON text holds
+but sqlite cannot store (C17 is about the JSON text and back, which still holds), an IndexError reachable only through the
+`leading semicolon` dialect flag that inference never sets and C08 does not list, the private `_keep_tempfiles` argument
+given as None (C20), and `ANALYZE` run when a database without statistics is opened (C19 lists features, relations,
+directives, dialect and id counters - all unchanged). One sixth-wave change (merge criterion on sequence names holding
 a comma) is kept but only judged on runs of two members, see C16's assumptions. Scale is handled by adding, per property, one or two
 deliberately large executions next to the exhaustive small-scope exploration (C02, C03, C10, C16, C20);
 those are single cases, not an exhaustive sweep, and are labelled so in the evidence. Each was then confirmed here in a scratch copy
